@@ -23,7 +23,7 @@ ASSUMPTIONS = ['msg_version field values are those the declared protocol version
                'corrupting the command field is judged by what the corrupted command names (the checksum does not cover it)']
 
 H = [bytes(range(32)), b'\x00' * 32, b'\xff' * 32, bytes(range(32, 64))]
-IPS = ['1.2.3.4', '255.255.255.255', '0.0.0.0', '2001:db8::1', '::ffff:1.2.3.4', '::1', 'fe80::ffff:ffff:ffff:ffff']
+IPS = ['1.2.3.4', '255.255.255.255', '0.0.0.0', '2001:db8::1', '::ffff:1.2.3.4', '::1', 'fe80::ffff:ffff:ffff:ffff', '::10.20.30.40', '::', '64:ff9b::192.0.2.33']
 
 
 def addr(ip='10.0.0.1', port=8333, services=1, time=1400000000):
@@ -504,7 +504,7 @@ class ChainFramingHistories(Family):
     TYPES = [0, 1, 9, 13]        # version, verack, headers, ping (pool indices)
 
     def events(self):
-        return [('sel', c) for c in C.CHAINS] + [('frame', i) for i in self.TYPES] + [('parse', i) for i in self.TYPES] + [('parse_foreign', 13)]
+        return [('sel', c) for c in C.CHAINS] + [('sel', 'testnet3')] + [('frame', i) for i in self.TYPES] + [('parse', i) for i in self.TYPES] + [('parse_foreign', 13)]
 
     def shards(self, tier):
         return list(range(len(self.events())))
@@ -525,8 +525,14 @@ class ChainFramingHistories(Family):
         for n, i in enumerate(seq):
             kind, x = ev[i]
             if kind == 'sel':
-                bitcoin.SelectParams(x)
-                cur = x
+                try:
+                    bitcoin.SelectParams(x)
+                    if x not in C.CHAINS:
+                        raise Viol('SelectParams(%r) accepted' % x, 'ValueError', None)
+                    cur = x
+                except ValueError:
+                    if x in C.CHAINS:
+                        raise
                 continue
             nt = nt or n > 0
             what = '%s %s on %s after %r' % (kind, ms[x]['type'], cur, [ev[j] for j in seq[:n]])
@@ -554,5 +560,70 @@ class ChainFramingHistories(Family):
         return 'ok', nt
 
 
+class ObjectReuse(Family):
+    """objects taken out of a parsed message are used to build another message (an address from a parsed version message
+    goes into an addr message, parsed inventory into getdata, parsed headers into a new headers message, a parsed
+    transaction into a block): the new frame is the one the reference prescribes for those field values"""
+    name = 'parsed_object_reuse'
+    engine = 'E2'
+    nontrivial_rule = 'every case'
+
+    def cases(self, shard, tier):
+        for ch in C.CHAINS:
+            for kind in ('version_addr_into_addr', 'inv_into_getdata', 'headers_into_headers', 'addr_into_version', 'tx_into_tx', 'locator_into_getheaders'):
+                for variant in range(3):
+                    yield (ch, kind, variant)
+
+    def check(self, case):
+        import bitcoin.messages as M
+        ch, kind, variant = case
+        C.select(ch)
+        ips = IPS[variant * 3:variant * 3 + 3]
+
+        def roundtrip(m):
+            fr = P.frame(ch, ref_model(m))
+            return parse_stream(io.BytesIO(fr))
+        if kind == 'version_addr_into_addr':
+            v = roundtrip(dict(base_model('version'), addr_to=addr(ips[0], 1, 2, 0), addr_from=addr(ips[1], 65535, 3, 0)))
+            a = M.msg_addr()
+            a.addrs = [v.addrFrom, v.addrTo]
+            want = {'type': 'addr', 'addrs': [addr(ips[1], 65535, 3, v.addrFrom.nTime), addr(ips[0], 1, 2, v.addrTo.nTime)]}
+            out = a
+        elif kind == 'addr_into_version':
+            a = roundtrip({'type': 'addr', 'addrs': [addr(ips[0], 7, 8, 99), addr(ips[2], 9, 10, 2 ** 32 - 1)]})
+            out = lib_msg(base_model('version'))
+            out.addrTo, out.addrFrom = a.addrs[0], a.addrs[1]
+            want = dict(base_model('version'), addr_to=addr(ips[0], 7, 8, 0), addr_from=addr(ips[2], 9, 10, 0))
+        elif kind == 'inv_into_getdata':
+            i = roundtrip({'type': 'inv', 'inv': [(1 + variant, H[0]), (0x40000001, H[3])]})
+            out = M.msg_getdata()
+            out.inv = list(i.inv)
+            want = {'type': 'getdata', 'inv': [(1 + variant, H[0]), (0x40000001, H[3])]}
+        elif kind == 'headers_into_headers':
+            hs = [c01.header_from({'nonce': variant}), c01.header_from({'time': 7})]
+            h = roundtrip({'type': 'headers', 'headers': hs})
+            out = M.msg_headers()
+            out.headers = list(h.headers) + list(h.headers[:1])
+            want = {'type': 'headers', 'headers': hs + hs[:1]}
+        elif kind == 'tx_into_tx':
+            t = roundtrip({'type': 'tx', 'tx': tx_model(variant)})
+            out = M.msg_tx()
+            out.tx = t.tx
+            want = {'type': 'tx', 'tx': tx_model(variant)}
+        else:
+            g = roundtrip(dict(base_model('getblocks'), locator_version=variant - 1))
+            out = M.msg_getheaders()
+            out.locator, out.hashstop = g.locator, g.hashstop
+            want = dict(base_model('getheaders'), locator_version=variant - 1)
+        got = out.to_bytes()
+        exp = P.frame(ch, ref_model(want))
+        if got != exp:
+            raise Viol('%s: frame built from objects of a parsed message differs from the protocol layout' % kind, exp[24:90].hex(), got[24:90].hex())
+        back = parse_stream(io.BytesIO(got))
+        if back is None or model_of_msg(back) != norm(want):
+            raise Viol('%s: the re-built frame does not parse back to the same values' % kind, None, None)
+        return kind, True
+
+
 def families(tier):
-    return [Messages(), Streams(), FrameFaults(), ChainFramingHistories()]
+    return [Messages(), Streams(), FrameFaults(), ChainFramingHistories(), ObjectReuse()]
